@@ -334,7 +334,10 @@ def gen_injected(rng, counter):
                                            [rng.randint(-9, 30) for _ in range(cnt)]],
                                           ["calc", nv0, tp], ["add", nv0, tp]])
                 reqs += first + ([use()] if rng.random() < 0.3 else []) + [["addvar", newvar]]
-                reqs += [use() for _ in range(rng.randint(0, 2))] + [target] + [use() for _ in range(rng.randint(0, 1))]
+                # inputs of the new variable first: a set_input made after its readers were computed would change
+                # an input under a live cache, which is outside the property
+                after = [use() for _ in range(rng.randint(0, 2))] + [target] + [use() for _ in range(rng.randint(0, 1))]
+                reqs += [r for r in after if r[0] == "set"] + [r for r in after if r[0] != "set"]
             elif rng.random() < 0.5:
                 reqs += first + [["fix"], target]
                 if rng.random() < 0.5:
@@ -679,6 +682,7 @@ def _run(case):
     main = Runner(case, probe=True)
     steps, resolved, fired, state, fresh, entries = [], [], [], [], [], []
     last_fired = None
+    inputs = []          # the set requests accepted so far (full mode)
     try:
         before = main.cache()
         for r in case["requests"]:
@@ -708,8 +712,16 @@ def _run(case):
             # fresh simulations (no probe, no tracer): the request alone on the inputs so far with the current
             # switches; and every entry this request added, with every switch off
             fr, en = None, []
+            if full and r[0] == "set":
+                # is this an input at all?  Decided on a new simulation of the rule system AS IT IS NOW (a
+                # set_input on a variable that does not exist yet is refused and gives nothing to later systems)
+                f0 = Runner(_fresh_case(case, [], switches_before, main.cur_sys()), trace=False)
+                for q in inputs:
+                    f0.do(q)
+                if not isinstance(f0.do(r), Err):
+                    inputs = inputs + [r]
+                f0.close()
             if full and is_calc(r):
-                inputs = [q for q in resolved if q[0] == "set"]
                 f1 = Runner(_fresh_case(case, [], switches_before, main.cur_sys()), trace=False)
                 for q in inputs:
                     f1.do(q)
